@@ -25,6 +25,8 @@ type Conn struct {
 	readDeadline, writeDeadline time.Time
 
 	closing bool // Guard against Write calls once Close() is called.
+
+	readBuf []byte // Remainder of a data frame that did not fit in the buffer given to Read.
 }
 
 func newConn(p *Port, dstCall string, via ...string) *Conn {
@@ -168,6 +170,12 @@ func (c *Conn) Read(p []byte) (int, error) {
 		ctx, cancel = context.WithDeadline(ctx, c.readDeadline)
 		defer cancel()
 	}
+	// Serve what is left of the previous frame first.
+	if len(c.readBuf) > 0 {
+		n := copy(p, c.readBuf)
+		c.readBuf = c.readBuf[n:]
+		return n, nil
+	}
 	select {
 	case <-ctx.Done():
 		// TODO (read timeout error)
@@ -176,11 +184,9 @@ func (c *Conn) Read(p []byte) (int, error) {
 		if !ok {
 			return 0, io.EOF
 		}
-		if len(p) < len(f.Data) {
-			panic("buffer overflow")
-		}
-		copy(p, f.Data)
-		return len(f.Data), nil
+		n := copy(p, f.Data)
+		c.readBuf = f.Data[n:] // Keep what did not fit in p for the next call.
+		return n, nil
 	}
 }
 
